@@ -98,7 +98,7 @@ Partials == {{}, {"msa"}, {"sep"}, {"thr"}, {"mr"}, {"msa", "mr"}, {"sep", "thr"
 Actions ==
   {[A0 EXCEPT !.op = "gset", !.path = p, !.v = v] : p \in {"msa", "thr", "mr"}, v \in {1, 2}}
   \cup {[A0 EXCEPT !.op = o, !.v = v] : o \in {"gsetlist", "gmutlist"}, v \in {1, 2}}
-  \cup {[A0 EXCEPT !.op = "yaml", !.has = h, !.v = v] : h \in Partials \ {{}}, v \in {1, 2}}
+  \cup {[A0 EXCEPT !.op = "yaml", !.has = h, !.v = v] : h \in Partials, v \in {1, 2}}      \* the empty assignment: a parameter file with every entry commented out
   \cup {[A0 EXCEPT !.op = "resetall"]}
   \cup {[A0 EXCEPT !.op = "reset", !.has = h] : h \in (SUBSET {"msa", "sep", "slc"}) \ {{}}}
   \cup {[A0 EXCEPT !.op = "setcaller", !.u = u, !.has = h, !.v = v] : u \in 1..2, h \in Partials, v \in {1, 2}}
